@@ -132,6 +132,37 @@ func vpH_C18_equiv_ids() {
 	vpReach("end")
 }
 
+// exactly one side untyped: a typed `to` refuses an untyped `from` (its type differs from from's) and
+// stays untouched; an untyped `to` accepts a typed `from` and carries from's type afterwards
+func vpH_C18_untyped_side() {
+	ti := vpTypeIndex(vpC18Types[vpChoice(len(vpC18Types))])
+	to, from := vpNew(ti), vpNew(ti)
+	typ := to.GetType()
+	vpSetField(to, 0, 0, 'i')
+	vpSetField(to, vpFieldIndex(ti, "Name"), 0, 'a')
+	vpSetID(from, to.GetID())
+	vpSetField(from, vpFieldIndex(ti, "Summary"), 0, 'k')
+	untypedFrom := vpBool()
+	if untypedFrom {
+		_ = OnObject(from, func(o *Object) error { o.Type = ""; return nil })
+	} else {
+		_ = OnObject(to, func(o *Object) error { o.Type = ""; return nil })
+	}
+	old := vpCloneItem(to)
+	fromSnap := vpCloneItem(from)
+	_, err := CopyItemProperties(to, from)
+	if untypedFrom {
+		vpAssert("untyped-from/refused", err != nil)
+		vpDiffItems("untyped-from/untouched", old, to, nil)
+	} else {
+		vpAssert("untyped-to/accepted", err == nil)
+		vpAssert("untyped-to/type-from", to.GetType() == typ)
+		vpMergeCheck("untyped-to/merge", to, old, from, vpC18IsMerged)
+	}
+	vpDiffItems("untyped-side/from-unchanged", fromSnap, from, nil)
+	vpReach("end")
+}
+
 func vpW_C18_twin() {
 	to := &Object{ID: vpMkIRI('i'), Type: NoteType}
 	from := &Object{ID: to.ID, Type: NoteType}
